@@ -771,6 +771,14 @@ class Seg:
             self.setreg(p, fr, reg, ('slice', elems, sl + tl, None))
             fr.idx += 1
             return
+        if name in ('min', 'max'):
+            acc = to_bv(args[0])
+            for a in args[1:]:
+                b = to_bv(a)
+                acc = z3.If(b < acc, b, acc) if name == 'min' else z3.If(b > acc, b, acc)
+            self.setreg(p, fr, reg, acc)
+            fr.idx += 1
+            return
         raise Unsupported('builtin ' + name)
 
     def spawn(self, p, callee, args):
@@ -960,6 +968,19 @@ def i_maplos(seg, p, fr, args, reg):
         nm = m.var('M.k%d' % i, init=BV(NIL))
         p.set(nm, z3.If(z3.And(to_bv(k) == BV(i), z3.Not(present)), to_bv(newv[1]), p.get(nm)))
     seg.setreg(p, fr, reg, (z3.If(present, cur, to_bv(newv[1])), present))
+    fr.idx += 1
+
+@intrinsic('(*sync.Map).Store')
+def i_mapstore(seg, p, fr, args, reg):
+    if seg.before_visible(p, 'map.store'):
+        seg.cut(p); return
+    m = seg.m
+    k, newv = args[1], args[2]
+    if not (isinstance(newv, tuple) and newv[0] == 'eptr'):
+        raise Unsupported('Store of %r' % (newv,))
+    for i in range(seg.cfg['keys']):
+        nm = m.var('M.k%d' % i, init=BV(NIL))
+        p.set(nm, z3.If(to_bv(k) == BV(i), to_bv(newv[1]), p.get(nm)))
     fr.idx += 1
 
 @intrinsic('sync/atomic.LoadUint32')
